@@ -3,6 +3,13 @@
 #include <algorithm>
 #include <random>
 #include <numeric_functions.h>
+#include <pthread.h>
+#include <semaphore.h>
+#include <signal.h>
+#include <unistd.h>
+#include <sys/syscall.h>
+#include <time.h>
+#include <errno.h>
 
 namespace sim {
 
@@ -381,4 +388,33 @@ int gate_affines(int g, GateAffine o[2]) {
     return 0;
 }
 
+} // namespace sim
+
+namespace sim {
+namespace {
+struct RunInThread { void *(*fn)(void *); void *arg; pid_t tid; sem_t done; };
+void *run_in_thread_main(void *v) {
+    RunInThread *t = (RunInThread *) v;
+    t->tid = (pid_t) syscall(SYS_gettid);
+    t->fn(t->arg);
+    sem_post(&t->done);      // last access to *t
+    return nullptr;
+}
+}
+void run_in_thread(void *(*fn)(void *), void *arg, size_t stack) {
+    RunInThread t{fn, arg, 0, {}};
+    sem_init(&t.done, 0, 0);
+    pthread_attr_t at; pthread_attr_init(&at); pthread_attr_setstacksize(&at, stack); pthread_attr_setdetachstate(&at, PTHREAD_CREATE_DETACHED);
+    pthread_t th;
+    if (pthread_create(&th, &at, run_in_thread_main, &t) != 0) { fprintf(stderr, "SIM-ERROR: pthread_create failed\n"); _exit(3); }
+    pthread_attr_destroy(&at);
+    while (sem_wait(&t.done) != 0 && errno == EINTR) {}
+    // the body has returned; wait until the kernel task is gone (thread_local destructors and the runtime's own thread
+    // teardown have run by then)
+    pid_t pid = getpid();
+    for (unsigned spins = 0; syscall(SYS_tgkill, pid, t.tid, 0) == 0; spins++) {
+        if (spins < 50) sched_yield(); else { struct timespec ts = {0, 50000}; nanosleep(&ts, nullptr); }
+    }
+    sem_destroy(&t.done);
+}
 } // namespace sim
